@@ -292,6 +292,29 @@ def run(ctx):
     for rel_ in sorted(files):
         if rel_ != "application/application.py" and rel_.endswith(".py"):
             optional_numbers_tested_for_none(ctx, rel_, "R6.optional-index-tested-for-none", 0)
+    # the results are parsed with the library's own FASTA reader (tantan masks, alignments): one record per header of the tool's output
+    from .C12 import text_layer_rules
+    text_layer_rules(ctx, "R6")
+    # clean_up removes what the application created, whatever else it removes: a step that can fail (a file the tool did not write,
+    # a request) comes after the temporary files are gone
+    n_cu = 0
+    for rel_ in sorted(files):
+        if not rel_.endswith(".py"):
+            continue
+        for q_, f_ in ctx.src(rel_).funcs.items():
+            if q_.split(".")[-1] != "clean_up" or q_.count(".") != 1:
+                continue
+            calls_ = [(k_, st.value) for k_, st in enumerate(f_.body) if isinstance(st, ast.Expr) and isinstance(st.value, ast.Call)]
+            temp_ = [k_ for k_, c_ in calls_ if call_name(c_) == "cleanup_tempfile"]
+            risky_ = [k_ for k_, c_ in calls_ if call_name(c_) not in ("cleanup_tempfile", "super().clean_up")]
+            if not temp_:
+                continue
+            n_cu += 1
+            ctx.ob("R2.tempfiles-removed-first", rel_, q_, f"{len(temp_)} cleanup_tempfile call(s), {len(risky_)} other call(s)",
+                   not risky_ or max(temp_) < min(risky_),
+                   "a call that raises (removing a file the tool never wrote because the run failed or was cancelled) leaves the temporary "
+                   "files that come after it on disk", f_.lineno)
+    ctx.floor("clean_up-with-tempfiles", n_cu, 5)
     # the polling join gives up only on a job that is NOT finished: the TimeoutError is raised under the fact
     # `get_app_state() != FINISHED` of the same iteration (a job that finished long ago and is joined late is evaluated, not cancelled)
     from ..facts import facts_at as _facts_at
